@@ -136,11 +136,11 @@ EDITS = {
     'edit-sub': lambda s: _append(s + '/sub/build.bfg', "copy_file('t.txt')\n"),
     'add-match-d1': lambda s: _write(s + '/d1/b.txt', ''),
     'add-nomatch-d1': lambda s: _write(s + '/d1/b.md', ''),
-    'add-match-deep': lambda s: _write(s + '/d2/deep/z.dat', ''),
-    'rm-match': lambda s: _os.remove(s + '/d1/a.txt'),
+    'add-match-deep': lambda s: _write(s + '/d2/deep/z.dat', ''),       # (re-creates d2/deep after a rename)
+    'rm-match': lambda s: _os.path.exists(s + '/d1/a.txt') and _os.remove(s + '/d1/a.txt'),
     'add-dir': lambda s: _write(s + '/d2/new/w.dat', ''),
-    'rename-dir': lambda s: _os.rename(s + '/d2/deep', s + '/d2/deeper'),
-    'add-empty-dir': lambda s: _os.makedirs(s + '/d2/empty'),
+    'rename-dir': lambda s: _os.path.isdir(s + '/d2/deep') and _os.rename(s + '/d2/deep', s + '/d2/deeper'),
+    'add-empty-dir': lambda s: _os.makedirs(s + '/d2/empty', exist_ok=True),
     'fill-empty-dir': lambda s: _write(s + '/d2/empty/w.dat', ''),
 }
 BUILD_FILES = ('Makefile', '.bfg_find_deps', '.bfg_find_cache', 'compile_commands.json')
@@ -171,8 +171,7 @@ class RegenHistory(Bounded):
         if extra:
             for a in names:
                 for b in names:
-                    if a != b and (a, b) not in pairs and not (a == 'rm-match' and b == 'rm-match') \
-                            and not (a == 'rename-dir' and b in ('rename-dir', 'add-match-deep')):
+                    if a != b and (a, b) not in pairs:
                         yield {'edits': [a, b]}
 
     def native_check(self, case, raw):
